@@ -448,6 +448,11 @@ static int _GD_Change(DIRFILE *D, const char *field_code, const gd_entry_t *N,
 
           ns_out = nread * Q.EN(raw,spf) / E->EN(raw,spf);
 
+          /* the conversions below work on native-endian data */
+          if (enc->flags & GD_EF_ECOR)
+            _GD_FixEndianness(buffer1, nread, E->EN(raw,data_type),
+                D->fragment[E->fragment_index].byte_sex, 0);
+
           /* spf convert */
           if (Q.EN(raw,spf) != E->EN(raw,spf))
             _GD_SPFConvert(D, buffer2, Q.EN(raw,spf), buffer1, E->EN(raw,spf),
@@ -467,6 +472,10 @@ static int _GD_Change(DIRFILE *D, const char *field_code, const gd_entry_t *N,
             buffer1 = buffer2;
             buffer2 = ptr;
           }
+
+          if (enc->flags & GD_EF_ECOR)
+            _GD_FixEndianness(buffer1, ns_out, Q.EN(raw,data_type), 0,
+                D->fragment[E->fragment_index].byte_sex);
 
           nwrote = _GD_WriteOut(E, enc, buffer1, Q.EN(raw,data_type), ns_out,
               1);
